@@ -3,5 +3,6 @@ CONSTANTS
   Dev <- DevAsBuilt
   MaxLen = 3
   KindSet <- AllKinds
+  Shape = "all"
 INVARIANT NonInterference
 CHECK_DEADLOCK FALSE
